@@ -582,6 +582,28 @@ func vRunProvider(run *vPRun, seed int64) []vPViolation {
 		run.Leases = status.Cluster.Leases
 	}
 	expectOutstanding := expected()
+	// hostnames of closed leases can be reserved by somebody else again
+	hostFree := map[int]bool{}
+	for _, k := range kits {
+		if k.o.Outcome != "won" || atomic.LoadInt64(&k.closedPub) == 0 {
+			continue
+		}
+		free := true
+		for v := 1; v <= 2; v++ {
+			if atomic.LoadInt32(&k.accepted[v]) == 0 {
+				continue
+			}
+			host := fmt.Sprintf("h%d.tenant%d.example.com", v, k.o.Idx)
+			select {
+			case e := <-svc.cluster.HostnameService().CanReserveHostnames([]string{host}, dtypes.DeploymentID{Owner: k.o.Owner, DSeq: 9999}):
+				if e != nil {
+					free = false
+				}
+			case <-time.After(5 * time.Second):
+			}
+		}
+		hostFree[k.o.Idx] = free
+	}
 	calls := g.Calls()
 	run.Calls = g.Log()
 	for i := range run.Calls {
@@ -670,6 +692,9 @@ func vRunProvider(run *vPRun, seed int64) []vPViolation {
 			}
 		}
 		closed := atomic.LoadInt64(&k.closedPub)
+		if free, ok := hostFree[k.o.Idx]; ok && !free && run.Leases == 0 {
+			bad("C14", "hostnames-released-after-close", k.o.class(), fmt.Sprintf("lease of order %d was closed and no deployment manager is left, but its hostname cannot be reserved by another deployment", k.o.Idx))
+		}
 		if closed != 0 && len(deploys) > 0 {
 			if len(teardowns) == 0 {
 				bad("C14", "closed-lease-is-torn-down", k.o.class(), fmt.Sprintf("lease of order %d was closed after %d deploy call(s); TeardownLease was never invoked", k.o.Idx, len(deploys)))
